@@ -78,6 +78,11 @@ def s2b(s):
     return s.encode("latin-1")
 
 
+class Inconclusive(Exception):
+    """The case cannot be judged (e.g. the subject did not repeat the recorded
+    operation sequence on the second run): counted, never a violation."""
+
+
 class Expect(Exception):
     """Raised by oracle helpers: Expect(signature, detail) -> violation."""
 
